@@ -73,6 +73,16 @@ def run(module, cfg, scratch, workers=16, timeout=1800, env=None, extra=(),
     e = dict(os.environ)
     if env:
         e.update(env)
+    # Optional cache of runs that do not read anything from the implementation
+    # (pure model checking, case tables).  Used by the mutation campaign only, where
+    # the same specification runs would otherwise be repeated for every mutant;
+    # registered commands never set VERIF_TLC_CACHE.
+    ckey = _cache_key(module, cfgp, cmd, env)
+    if ckey:
+        hit = _cache_get(ckey, env)
+        if hit is not None:
+            shutil.rmtree(meta, ignore_errors=True)
+            return hit
     t0 = time.time()
     res = Result()
     try:
@@ -103,7 +113,54 @@ def run(module, cfg, scratch, workers=16, timeout=1800, env=None, extra=(),
     if not res.ok and not res.violated and res.error is None:
         if 'Error:' in out or res.rc not in (0,):
             res.error = 'tlc-error'
+    if ckey and res.error is None:
+        _cache_put(ckey, res, env)
     return res
+
+
+def _cache_key(module, cfgp, cmd, env):
+    root = os.environ.get('VERIF_TLC_CACHE')
+    if not root or (env and any(k not in ('OUT_FILE',) for k in env)):
+        return None
+    import hashlib
+    h = hashlib.sha256()
+    for name in sorted(os.listdir(SPEC_DIR)):
+        if name.endswith('.tla'):
+            with open(os.path.join(SPEC_DIR, name), 'rb') as f:
+                h.update(name.encode() + f.read())
+    with open(cfgp, 'rb') as f:
+        h.update(f.read())
+    h.update(module.encode())
+    h.update(' '.join(c for c in cmd if 'meta_' not in c and c != cfgp).encode())
+    return os.path.join(root, h.hexdigest())
+
+
+def _cache_get(ckey, env):
+    import pickle
+    try:
+        with open(ckey, 'rb') as f:
+            res, blob = pickle.load(f)
+    except (OSError, EOFError, pickle.PickleError):
+        return None
+    if env and env.get('OUT_FILE'):
+        if blob is None:
+            return None
+        with open(env['OUT_FILE'], 'wb') as f:
+            f.write(blob)
+    return res
+
+
+def _cache_put(ckey, res, env):
+    import pickle
+    blob = None
+    if env and env.get('OUT_FILE') and os.path.exists(env['OUT_FILE']):
+        with open(env['OUT_FILE'], 'rb') as f:
+            blob = f.read()
+    os.makedirs(os.path.dirname(ckey), exist_ok=True)
+    tmp = ckey + '.%d' % os.getpid()
+    with open(tmp, 'wb') as f:
+        pickle.dump((res, blob), f)
+    os.replace(tmp, ckey)
 
 
 def require_clean(res, what):
